@@ -61,7 +61,7 @@ var props = map[string]propCfg{
 		Rule:     "stage 1 sweeps completely every single structural edit (delete / duplicate / empty each element, delete / empty / duplicate each attribute) of 7 base messages (AuthnRequest redirect / POST signed / redirect signed, LogoutRequest POST / redirect, AttributeQuery unsigned / signed incl. the SOAP envelope) and of the stored metadata of 2 SPs (thorough tier: also every ordered pair of single edits of every base message); stage 2 draws random worlds with corrupted SP metadata, deviating / tampered / raw / torn requests (up to 3 edits per message) under storage faults. Non-trivial: at least one fault or edit fired or two tasks interleaved; distinct by (schedule × outcome) hash",
 		Required: []string{"handler_ran", "sp_metadata_corrupt", "tamper_dropElem", "tamper_dropAttr", "tamper_swap_sigalg", "body_eof_at", "storage_err"}},
 	"C10": {Level: "fault_enumeration", QuickRuns: 4000, QuickBud: 25 * time.Second, ThorRuns: 200000, ThorBud: 10 * time.Minute,
-		Rule:     "stage 1 enumerates completely: 4 provider configurations × 13 workloads × {no bystander, callback bystander, metadata bystander, warm-up by an earlier callback, warm-up by an earlier metadata request, callback / metadata bystander run up to its own call of the operation the fault hits, callback / metadata bystander run through that call} × every storage call of the workload's trace × every fault kind the property names for that operation (single faults: the returned error in five values), singly and in all pairs (second fault anywhere in the trace as it unfolds after the first); stage 2 draws random fault schedules over random worlds with pgregory.net/rapid. A case is non-trivial when at least one fault fired or at least two tasks were interleaved; distinct = distinct (schedule signature × outcome signature), counted by hash",
+		Rule:     "stage 1 enumerates completely: 4 provider configurations × 14 workloads × {no bystander, callback bystander, metadata bystander, warm-up by an earlier callback, warm-up by an earlier metadata request, callback / metadata bystander run up to its own call of the operation the fault hits, callback / metadata bystander run through that call} × every storage call of the workload's trace × every fault kind the property names for that operation (single faults: the returned error in six values), singly and in all pairs (second fault anywhere in the trace as it unfolds after the first); stage 2 draws random fault schedules over random worlds with pgregory.net/rapid. A case is non-trivial when at least one fault fired or at least two tasks were interleaved; distinct = distinct (schedule signature × outcome signature), counted by hash",
 		Required: []string{"storage_err", "storage_nil_record", "storage_key_without_cert", "storage_cert_without_key", "storage_empty_cert", "alg_unusable", "bystander_during_fault", "recovery_request"}},
 	"C02": {Level: "exploration", QuickRuns: 4000, QuickBud: 22 * time.Second, ThorRuns: 200000, ThorBud: 10 * time.Minute,
 		Required: []string{"persisted_pair_checked", "sso_error_reply_target_checked", "callback_target_checked", "callback_after_reregistration", "logout_target_checked", "sp_reregistered", "tamper_field", "request_names_a_respelled_registered_consumer_url"}},
